@@ -490,6 +490,8 @@ func hiddenOK(view *pt.Table) string {
 	return ""
 }
 
+var c20MaxActors = 3
+
 func c20Node(n *snapNode, st *SuiteStats, viol map[string]*Violation, suite string) {
 	t := n.T
 	kinds := []string{"observer", "system", "bot", "player"}
@@ -502,7 +504,7 @@ func c20Node(n *snapNode, st *SuiteStats, viol map[string]*Violation, suite stri
 			}
 			orders = append(orders, []string{a, b})
 			for _, c := range kinds {
-				if c == a || c == b {
+				if c == a || c == b || c20MaxActors < 3 {
 					continue
 				}
 				orders = append(orders, []string{a, b, c})
@@ -731,10 +733,14 @@ func init() {
 	})
 	register(&Check{
 		ID: "C20", Level: "model_checking",
-		Rule:        "every distinct snapshot published along the full hand trees (all statuses and hand phases, showdown and fold-out endings) is handed, as the engine does, to 1-3 real actors (observer, system observer, bot, player runner) attached in every order through the real table-engine adapter; a non-system observer's callback must not see deck, burned cards, hole cards or hand strength while the hand is not closed (folded players' afterwards), the engine's table must be byte-identical afterwards and the other actors' views untouched; plus the schedules (<= bound deviations) of a hand's opening window, whose snapshots are shown to a plain observer",
+		Rule:        "every distinct snapshot published along the full hand trees (all statuses and hand phases, showdown and fold-out endings) is handed, as the engine does, to 1-2 (quick) / 1-3 (thorough) real actors (observer, system observer, bot, player runner) attached in every order through the real table-engine adapter; a non-system observer's callback must not see deck, burned cards, hole cards or hand strength while the hand is not closed (folded players' afterwards), the engine's table must be byte-identical afterwards and the other actors' views untouched; plus the schedules (<= bound deviations) of a hand's opening window, whose snapshots are shown to a plain observer",
 		Assumptions: []string{"snapshots are the tables passed to OnTableUpdated"},
 		Suites: func(tier string) []*Suite {
 			var ss []*Suite
+			c20MaxActors = 2
+			if tier == "thorough" {
+				c20MaxActors = 3
+			}
 			for sh := 0; sh < shards; sh++ {
 				ss = append(ss, actorNodeSuite(fmt.Sprintf("c20/nodes/shard%d", sh), tier, sh, shards, c20Node))
 			}
